@@ -157,7 +157,7 @@ def run(ctx, chk):
 def driver_rules(ctx, chk, drv):
     """the execution loop as terms (driver_rules.LoopModel): what Interpreter::parse receives, where the index starts,
     and what it becomes per outcome -- independent of how the source spells the updates"""
-    from driver_rules import LoopModel, has_unknown, local_closure
+    from driver_rules import LoopModel, has_unknown, local_closure, looks_up_start
     from symterm import subterms, strip, show, is_plus_one
     import re
     P = ctx.program
@@ -198,7 +198,8 @@ def driver_rules(ctx, chk, drv):
         elif core[0] == "const":
             chk.violation("C08.R5", "CMDDriver::run", "initial-index", f"idx is initialised with the constant {core[1]}, not from the map value of `start`", span)
         elif core[0] == "proj" and core[2] == ("f", 0) and core[1][0] == "proj" and core[1][2] == ("down", 1) and core[1][1][0] == "call" \
-                and any(strip(a) == ("str", '"start"') for a in core[1][1][2]):
+                and (any(strip(a) == ("str", '"start"') for a in core[1][1][2])
+                     or (P.by_name.get(("bin", core[1][1][1])) is not None and looks_up_start(P, P.by_name[("bin", core[1][1][1])]))):
             verdict, msg = start_helper_rule(ctx, core[1][1], map_i)
             if verdict is True:
                 chk.ok("C08.R5", "idx0", msg)
